@@ -85,6 +85,7 @@ C04.vis: parts that are not PER-visible (X.691 10.3.21; a PATTERN constraint sta
     borrow(ctx, "C15", "C15.km", "C04.km", &mut |sub| crate::rules::c15::run(m, sub));
     invisible_only(m, ctx);
     size_set_operations(m, ctx);
+    precedence(m, ctx, "C04.prec", true);
     crate::rules::c09::value_chain(m, ctx, "C04.scope");
     let consts = const_resolver(m);
     let inl = inline_all(m, &["ASN1Value"]);
@@ -826,4 +827,199 @@ fn endpoints(m: &Model, ctx: &mut Ctx, consts: &dyn Fn(&str) -> Option<Val>) {
             Err(e) => ctx.fail_closed("C04.refs", &format!("[{}]: {}", what, e)),
         }
     }
+}
+
+/// The `SetOperation` value the lexer builds for `E0 op1 E1 op2 E2 ..`: the production returning `SetOperation` is run
+/// (SRC-G, `nomx`) on the token list, the productions returning `SubtypeElements` being leaves that yield the operands.
+pub fn parser_chain(m: &Model, ev: &Evaluator, consts: &dyn Fn(&str) -> Option<Val>, ops: &[&str], operands: &[Val]) -> Result<Val, String> {
+    use crate::nomx::{ret_type_name, Grammar, Tok};
+    let prods: Vec<&crate::model::FnInfo> = m.fns.iter().filter(|f| f.self_ty.is_none() && f.module.starts_with("lexer") && !f.module.contains("tests") && ret_type_name(f).as_deref() == Some("SetOperation")).collect();
+    if prods.len() != 1 {
+        return Err(format!("{} lexer productions return a SetOperation", prods.len()));
+    }
+    let mut toks = vec![Tok::Leaf(0)];
+    for (i, op) in ops.iter().enumerate() {
+        toks.push(Tok::Word((*op).to_string()));
+        toks.push(Tok::Leaf(i + 1));
+    }
+    let g = Grammar { m, ev, leaves: vec!["SubtypeElements"], leaf_vals: operands.to_vec(), consts };
+    match g.parse_production(&prods[0].name, &toks, 0, 0)? {
+        Some((v, p)) if p == toks.len() => Ok(v),
+        Some((_, p)) => Err(format!("`{}` stops after {} of {} tokens of `E0 {}`", prods[0].name, p, toks.len(), ops.join(" E "))),
+        None => Err(format!("`{}` does not accept `E0 {} E`", prods[0].name, ops.join(" E "))),
+    }
+}
+
+/// C04.prec: chains of three and four operands with *mixed* operators. X.680 (clause 50: Unions of Intersections of
+/// Elements [EXCEPT Elements]) gives EXCEPT precedence over intersection and intersection over union; X.691 10.3.21 ignores
+/// an EXCEPT together with the elements that follow it. The tree is the one the lexer's own production builds (SRC-G), the
+/// bound the one `fold_constraint_set` computes for that tree — the composition the generators see — compared with the
+/// hull of the union of the intersections.
+pub fn precedence(m: &Model, ctx: &mut Ctx, rule: &str, four: bool) {
+    let consts = const_resolver(m);
+    let inl = inline_all(m, &["ASN1Value"]);
+    // the helpers of the folding that take a set operation and no closure are pure functions of plain data: their results are
+    // memoised (the chains share most of their sub-folds)
+    let pure: Vec<String> = m.fns.iter().filter(|f| f.self_ty.is_none() && f.module.contains("per_visible") && !f.module.contains("tests") && f.name != "fold_constraint_set"
+        && f.sig.inputs.iter().any(|a| matches!(a, syn::FnArg::Typed(t) if tok(&t.ty).contains("SetOperation")))
+        && !f.sig.inputs.iter().any(|a| matches!(a, syn::FnArg::Typed(t) if tok(&t.ty).contains("Fn") || tok(&t.ty).contains("& mut")))).map(|f| f.name.clone()).collect();
+    let memo: std::cell::RefCell<BTreeMap<String, Result<Val, String>>> = Default::default();
+    let hook = |ev: &Evaluator, name: &str, a: &[Val]| -> Option<Result<Val, String>> {
+        if name == ".per_visible" {
+            return Some(Ok(Val::Bool(true)));
+        }
+        if pure.iter().any(|p| p == name) {
+            let (params, body) = inl.get(name)?;
+            let key = format!("{}({})", name, a.iter().map(|v| v.show()).collect::<Vec<_>>().join(";"));
+            if let Some(r) = memo.borrow().get(&key) {
+                return Some(r.clone());
+            }
+            let mut e2 = Env::new();
+            for (p, v) in params.iter().zip(a.iter()) {
+                e2.insert(p.clone(), v.clone());
+            }
+            let r = ev.eval_fn_body(body, &mut e2);
+            memo.borrow_mut().insert(key, r.clone());
+            return Some(r);
+        }
+        None
+    };
+    let ev = Evaluator { consts: &consts, call_hook: &hook, inline: Some(&inl) };
+    let Ok(fold) = m.find_fn(None, "fold_constraint_set", Some("per_visible")) else {
+        ctx.fail_closed(rule, "anchor not found: fold_constraint_set");
+        return;
+    };
+    let r = |lo: Bound, hi: Bound| Elem { lo, hi, single: false, ext: false };
+    let s = |v: i128| Elem { lo: Some(v), hi: Some(v), single: true, ext: false };
+    let thorough = ctx.tier == "thorough";
+    let elems: Vec<Elem> = if thorough {
+        vec![s(5), s(20), s(30), r(None, Some(5)), r(Some(1), Some(5)), r(Some(1), Some(10)), r(Some(3), Some(10)), r(Some(5), Some(20)), r(Some(10), Some(20)), r(Some(10), None), Elem { lo: Some(1), hi: Some(10), single: false, ext: true }]
+    } else {
+        vec![s(5), s(20), r(None, Some(5)), r(Some(3), Some(10)), r(Some(10), None)]
+    };
+    let words = [("|", "Union"), ("^", "Intersection"), ("EXCEPT", "Except"), ("UNION", "Union"), ("INTERSECTION", "Intersection")];
+    // the X.680 / X.691 oracle
+    let oracle = |es: &[&Elem], ops: &[&str]| -> Option<(Bound, Bound, bool)> {
+        let mut groups: Vec<(Bound, Bound)> = vec![(es[0].lo, es[0].hi)];
+        let mut ext = es[0].ext;
+        for (op, e) in ops.iter().zip(es.iter().skip(1)) {
+            match *op {
+                "Except" => {}
+                "Intersection" => {
+                    ext |= e.ext;
+                    let g = groups.last_mut().unwrap();
+                    g.0 = match (g.0, e.lo) { (Some(x), Some(y)) => Some(x.max(y)), (x, None) => x, (None, y) => y };
+                    g.1 = match (g.1, e.hi) { (Some(x), Some(y)) => Some(x.min(y)), (x, None) => x, (None, y) => y };
+                }
+                _ => {
+                    ext |= e.ext;
+                    groups.push((e.lo, e.hi));
+                }
+            }
+        }
+        if groups.iter().any(|g| matches!(g, (Some(l), Some(h)) if l > h)) {
+            return None; // an empty intersection: an error is acceptable
+        }
+        let lo = groups.iter().map(|g| g.0).fold(Some(i128::MAX), |a, b| match (a, b) { (Some(x), Some(y)) => Some(x.min(y)), _ => None });
+        let hi = groups.iter().map(|g| g.1).fold(Some(i128::MIN), |a, b| match (a, b) { (Some(x), Some(y)) => Some(x.max(y)), _ => None });
+        Some((lo, hi, ext))
+    };
+    let mut n = 0usize;
+    let mut shapes_reported: std::collections::BTreeSet<String> = Default::default();
+    let mut run_chain = |ctx: &mut Ctx, es: Vec<&Elem>, ws: Vec<(&str, &str)>| {
+        let ops: Vec<&str> = ws.iter().map(|w| w.1).collect();
+        let shape = ops.join("-");
+        if shapes_reported.contains(&shape) {
+            return;
+        }
+        let Some((want_lo, want_hi, want_ext)) = oracle(&es, &ops) else { return };
+        n += 1;
+        let text = format!("({})", es.iter().enumerate().map(|(i, e)| if i == 0 { e.show() } else { format!("{} {}", ws[i - 1].0, e.show()) }).collect::<Vec<_>>().join(" "));
+        let vals: Vec<Val> = es.iter().map(|e| e.to_val()).collect();
+        let tree = match parser_chain(m, &ev, &consts, &ws.iter().map(|w| w.0).collect::<Vec<_>>(), &vals) {
+            Ok(t) => t,
+            Err(e) => {
+                ctx.fail_closed(rule, &format!("[tree of {}]: {}", text, e));
+                shapes_reported.insert(shape);
+                return;
+            }
+        };
+        let mut env = Env::new();
+        env.insert("set".into(), tree);
+        env.insert("char_set".into(), Val::none());
+        env.insert("range_constraint".into(), Val::Bool(true));
+        let got = match ev.eval_fn_body(&fold.block, &mut env) {
+            Ok(Val::Ctor(k, p, _)) if k == "Ok" => bounds_of(&p[0]),
+            Ok(Val::Ctor(k, _, _)) if k == "Err" => Err("Err(..)".to_string()),
+            Ok(o) => Err(o.show()),
+            Err(e) => {
+                ctx.fail_closed(rule, &format!("[{}]: {}", text, e));
+                shapes_reported.insert(shape);
+                return;
+            }
+        };
+        let b2 = |x: Bound, d: &str| x.map(|v| v.to_string()).unwrap_or(d.to_string());
+        match got {
+            Ok((lo, hi, ext)) => {
+                let lo_ok = match (lo, want_lo) { (None, _) => true, (Some(_), None) => false, (Some(g), Some(w)) => g <= w };
+                let hi_ok = match (hi, want_hi) { (None, _) => true, (Some(_), None) => false, (Some(g), Some(w)) => g >= w };
+                if !lo_ok || !hi_ok {
+                    ctx.violate(rule, &format!("{}:excludes-permitted-values", shape), &fold.file, fold.line,
+                        &format!("{} is emitted as {}..{}; by X.680 precedence (EXCEPT over intersection over union; X.691 10.3.21 drops the EXCEPT part) the constraint permits {}..{}: permitted values are excluded from the bound (and from the integer type chosen from it)", text, b2(lo, "MIN"), b2(hi, "MAX"), b2(want_lo, "MIN"), b2(want_hi, "MAX")));
+                    shapes_reported.insert(shape);
+                } else if (lo, hi) != (want_lo, want_hi) {
+                    ctx.violate(rule, &format!("{}:not-tight", shape), &fold.file, fold.line,
+                        &format!("{} is emitted as {}..{}; the PER-visible effective constraint is {}..{}", text, b2(lo, "MIN"), b2(hi, "MAX"), b2(want_lo, "MIN"), b2(want_hi, "MAX")));
+                    shapes_reported.insert(shape);
+                } else if ext != want_ext {
+                    ctx.violate(rule, &format!("{}:extensible", shape), &fold.file, fold.line, &format!("{} is emitted extensible={}, expected {}", text, ext, want_ext));
+                    shapes_reported.insert(shape);
+                }
+            }
+            Err(e) => {
+                ctx.violate(rule, &format!("{}:no-bound", shape), &fold.file, fold.line, &format!("{} does not fold to a bound ({}) although every part is PER-visible and no intersection is empty", text, e));
+                shapes_reported.insert(shape);
+            }
+        }
+    };
+    // three operands, every pair of operators (both spellings of the marks are accepted by the lexer: checked on one pair each)
+    for w1 in &words[..3] {
+        for w2 in &words[..3] {
+            ctx.oblige(rule, &format!("{}-{}", w1.1, w2.1), true);
+            for a in &elems {
+                for b in &elems {
+                    for c in &elems {
+                        run_chain(ctx, vec![a, b, c], vec![*w1, *w2]);
+                    }
+                }
+            }
+        }
+    }
+    ctx.oblige(rule, "word-marks", true);
+    run_chain(ctx, vec![&elems[2], &elems[3], &elems[1]], vec![words[4], words[3]]);
+    // four operands: a smaller alphabet; the quick tier takes the operator triples that mix precedence levels
+    if four {
+    let small: Vec<&Elem> = if thorough { elems.iter().filter(|e| !e.single || e.lo == Some(20)).take(5).collect() } else { vec![&elems[1], &elems[2], &elems[3]] };
+    for w1 in &words[..3] {
+        for w2 in &words[..3] {
+            for w3 in &words[..3] {
+                if !thorough && w1.1 == w2.1 && w2.1 == w3.1 {
+                    continue;
+                }
+                ctx.oblige(rule, &format!("{}-{}-{}", w1.1, w2.1, w3.1), true);
+                for a in &small {
+                    for b in &small {
+                        for c in &small {
+                            for d in &small {
+                                run_chain(ctx, vec![*a, *b, *c, *d], vec![*w1, *w2, *w3]);
+                            }
+                        }
+                    }
+                }
+            }
+        }
+    }
+    }
+    ctx.oblige_n(&format!("{}/chains", rule), n);
+    ctx.floor(&format!("{}/chains", rule), n, if four { 1000 } else { 500 });
 }
